@@ -45,7 +45,20 @@ func HarnessC17Resolve() {
 
 	// self = pkg-a depends on pkg-b (always) and optionally on pkg-c or a missing package
 	cB := zz.Choose("self.dep.b.constraint", len(zzConstraints))
-	deps := []pkgmetav1.Dependency{{Provider: ptr.To(zzSources[1]), Version: zzConstraints[cB]}}
+	// the dependency on pkg-b is declared in one of the four forms the
+	// package metadata allows
+	depB := pkgmetav1.Dependency{Version: zzConstraints[cB]}
+	switch zz.Choose("self.dep.b.form", 4) {
+	case 0:
+		depB.Provider = ptr.To(zzSources[1])
+	case 1:
+		depB.Configuration = ptr.To(zzSources[1])
+	case 2:
+		depB.Function = ptr.To(zzSources[1])
+	case 3:
+		depB.APIVersion, depB.Kind, depB.Package = ptr.To("pkg.crossplane.io/v1"), ptr.To("Provider"), ptr.To(zzSources[1])
+	}
+	deps := []pkgmetav1.Dependency{depB}
 	second := zz.Choose("self.dep2", 3) // none, pkg-c, missing
 	cC := 0
 	switch second {
@@ -79,11 +92,22 @@ func HarnessC17Resolve() {
 	if cIn {
 		lock.Packages = append(lock.Packages, v1beta1.LockPackage{Name: "pkg-c-rev", Type: ptr.To(v1beta1.ProviderPackageType), Source: zzSources[2], Version: zzVersions[vC]})
 	}
-	selfIn := zz.Bool("lock.self")
+	selfState := zz.Choose("lock.self", 3) // absent, listed, listed under another source (image relocated)
+	selfIn := selfState != 0
 	if selfIn {
 		self := v1beta1.LockPackage{Name: "pkg-a-rev", Type: ptr.To(v1beta1.ProviderPackageType), Source: zzSources[0], Version: "v1.0.0"}
+		if selfState == 2 {
+			self.Type = nil
+			self.Source = "other.io/org/pkg-a"
+		}
 		for _, d := range deps {
-			self.Dependencies = append(self.Dependencies, v1beta1.Dependency{Package: *d.Provider, Type: ptr.To(v1beta1.ProviderPackageType), Constraints: d.Version})
+			pkg := ""
+			for _, p := range []*string{d.Provider, d.Configuration, d.Function, d.Package} {
+				if p != nil {
+					pkg = *p
+				}
+			}
+			self.Dependencies = append(self.Dependencies, v1beta1.Dependency{Package: pkg, Type: ptr.To(v1beta1.ProviderPackageType), Constraints: d.Version})
 		}
 		lock.Packages = append(lock.Packages, self)
 	}
